@@ -234,20 +234,8 @@ theorem findIdx_none_of_not_mem (ids : List Nat) (h : Nat) (hn : h ∉ ids) :
 /-! ### poll responses -/
 
 theorem convertResponse_eq (tps : List RawTp) :
-    convertResponse tps =
-      if tps.all (·.convertible) then some ((tps.filter (·.interpretable)).map (·.trig)) else none := by
-  by_cases h : tps.all (·.convertible) = true
-  · have h' : tps.any (fun r => !r.convertible) = false := by
-      simp only [List.all_eq_true] at h
-      simp only [List.any_eq_false, Bool.not_eq_true', Bool.not_eq_false]
-      intro x hx; simp [h x hx]
-    simp [convertResponse, h, h', skipsUninterpretable]
-  · have hf : tps.all (·.convertible) = false := by simpa using h
-    have h' : tps.any (fun r => !r.convertible) = true := by
-      rw [List.all_eq_false] at hf
-      obtain ⟨x, hx, hc⟩ := hf
-      exact List.any_eq_true.mpr ⟨x, hx, by simpa using hc⟩
-    simp [convertResponse, hf, h']
+    convertResponse tps = some ((tps.filter (fun t => t.convertible && t.interpretable)).map (·.trig)) := by
+  simp [convertResponse, skipsUnconvertible, skipsUninterpretable, List.filter_filter, Bool.and_comm]
 
 theorem pollFail_exc (s : St) : pollFail s .exc = s := by
   simp [pollFail, timerCatches, timerCatchesException]
@@ -315,12 +303,8 @@ theorem rel_step (s : St) (r : Ref) (op : Op) (hr : Rel s r) : Rel (step true s 
           | none => pollFail s .exc
           | some cfg => { s with svc := updateNewConfig s.svc ts h cfg } := rfl
       rw [e]
-      simp only [convertResponse_eq, refStep]
-      by_cases hc : tps.all (·.convertible) = true
-      · simp only [hc, if_true, updateNewConfig_eq]
-        refine ⟨⟨wf.len, wf.fresh, wf.nodup⟩, rfl, rfl, hl, hn, hrun, hlen, Or.inl (by simp)⟩
-      · simp only [hc, Bool.false_eq_true, if_false, pollFail_exc]
-        exact ⟨wf, hp, hh, hl, hn, hrun, hlen, hset⟩
+      simp only [convertResponse_eq, refStep, updateNewConfig_eq]
+      refine ⟨⟨wf.len, wf.fresh, wf.nodup⟩, rfl, rfl, hl, hn, hrun, hlen, Or.inl (by simp)⟩
   | pollFail e =>
     exact ⟨wf, hp, hh, hl, hn, hrun, hlen, hset⟩
   | register t =>
@@ -449,5 +433,102 @@ theorem run_eq (ops : List Op) : run ops = runFrom true St.init ops := rfl
 
 theorem rel_run (ops : List Op) : Rel (run ops) (refRun ops) := by
   rw [run_eq]; exact rel_run_from ops _ _ rel_init
+
+/-! ### progress: from any state the background tasks alone reach quiescence -/
+
+theorem runFrom_append (locked : Bool) (s : St) (a b : List Op) :
+    runFrom locked s (a ++ b) = runFrom locked (runFrom locked s a) b := by
+  simp [runFrom, List.foldl_append]
+
+/-- the task under the lock (if any) finishes -/
+theorem drain_holder (s : St) (hlen : s.holding.length ≤ 1) :
+    ∃ ops, (∀ o ∈ ops, o.isTask = true) ∧ (runFrom true s ops).holding = [] ∧
+      (runFrom true s ops).pre = s.pre ∧ (runFrom true s ops).svc = s.svc := by
+  match hh : s.holding, hlen with
+  | [], _ => exact ⟨[], by simp, by simp [runFrom, hh], rfl, rfl⟩
+  | [v], _ =>
+    cases hb : v.argBuilt with
+    | true =>
+      refine ⟨[.taskInstall 0], by simp [Op.isTask], ?_, ?_, ?_⟩ <;> simp [runFrom, step, hh, hb]
+    | false =>
+      refine ⟨[.taskCall 0, .taskInstall 0], by simp [Op.isTask], ?_, ?_, ?_⟩ <;> simp [runFrom, step, hh, hb]
+  | _ :: _ :: _, hl => simp at hl
+
+/-- every task standing before the lock takes it, evaluates and installs, one after the other -/
+theorem drain_pre (n : Nat) : ∀ (s : St), s.pre.length = n → s.holding = [] →
+    ∃ ops, (∀ o ∈ ops, o.isTask = true) ∧ (runFrom true s ops).holding = [] ∧
+      (runFrom true s ops).pre = [] ∧ (runFrom true s ops).svc = s.svc := by
+  induction n with
+  | zero =>
+    intro s hn hh
+    exact ⟨[], by simp, by simp [runFrom, hh], by simpa [runFrom] using List.length_eq_zero_iff.mp hn, rfl⟩
+  | succ n ih =>
+    intro s hn hh
+    match hp : s.pre, hn with
+    | l :: rest, hn' =>
+      let ops0 : List Op := [.taskRead 0, .taskCall 0, .taskInstall 0]
+      have e1 : (runFrom true s ops0).holding = [] := by simp [ops0, runFrom, step, hp, hh]
+      have e2 : (runFrom true s ops0).pre = rest := by simp [ops0, runFrom, step, hp, hh]
+      have e3 : (runFrom true s ops0).svc = s.svc := by simp [ops0, runFrom, step, hp, hh]
+      obtain ⟨ops1, t1, h1, p1, v1⟩ := ih (runFrom true s ops0) (by rw [e2]; simpa using hn') e1
+      refine ⟨ops0 ++ ops1, ?_, ?_, ?_, ?_⟩
+      · intro o ho
+        rcases List.mem_append.mp ho with ho | ho
+        · simp only [ops0, List.mem_cons, List.not_mem_nil, or_false] at ho
+          rcases ho with rfl | rfl | rfl <;> rfl
+        · exact t1 o ho
+      · rw [runFrom_append]; exact h1
+      · rw [runFrom_append]; exact p1
+      · rw [runFrom_append, v1, e3]
+
+/-- every queued task runs -/
+theorem drain_queued (n : Nat) : ∀ (s : St), s.svc.queued.length = n → s.holding = [] → s.pre = [] →
+    ∃ ops, (∀ o ∈ ops, o.isTask = true) ∧ quiescent (runFrom true s ops) = true := by
+  induction n with
+  | zero =>
+    intro s hn hh hp
+    refine ⟨[], by simp, ?_⟩
+    simp [runFrom, quiescent, hh, hp, List.length_eq_zero_iff.mp hn]
+  | succ n ih =>
+    intro s hn hh hp
+    match hq : s.svc.queued, hn with
+    | t :: rest, hn' =>
+      have e1 : (runFrom true s [.applyTask 0]).holding = [] := by simp [runFrom, step, hq, hh]
+      have e2 : (runFrom true s [.applyTask 0]).pre = [] := by simp [runFrom, step, hq, hh, hp]
+      have e3 : (runFrom true s [.applyTask 0]).svc.queued = rest := by simp [runFrom, step, hq, hh]
+      obtain ⟨ops1, t1, q1⟩ := ih (runFrom true s [.applyTask 0]) (by rw [e3]; simpa using hn') e1 e2
+      refine ⟨[.applyTask 0] ++ ops1, ?_, ?_⟩
+      · intro o ho
+        rcases List.mem_append.mp ho with ho | ho
+        · simp only [List.mem_singleton] at ho; subst ho; rfl
+        · exact t1 o ho
+      · rw [runFrom_append]; exact q1
+
+theorem progress (s : St) (hlen : s.holding.length ≤ 1) :
+    ∃ ops, (∀ o ∈ ops, o.isTask = true) ∧ quiescent (runFrom true s ops) = true := by
+  obtain ⟨a, ta, ha, pa, _⟩ := drain_holder s hlen
+  obtain ⟨b, tb, hb, pb, _⟩ := drain_pre _ (runFrom true s a) rfl ha
+  obtain ⟨c, tc, qc⟩ := drain_queued _ (runFrom true (runFrom true s a) b) rfl hb pb
+  refine ⟨a ++ b ++ c, ?_, ?_⟩
+  · intro o ho
+    rcases List.mem_append.mp ho with ho | ho
+    · rcases List.mem_append.mp ho with ho | ho
+      · exact ta o ho
+      · exact tb o ho
+    · exact tc o ho
+  · rw [runFrom_append, runFrom_append]; exact qc
+
+theorem refStep_task (r : Ref) (o : Op) (h : o.isTask = true) : refStep r o = r := by
+  cases o <;> simp [Op.isTask] at h <;> rfl
+
+theorem refRun_tasks (ops ops' : List Op) (h : ∀ o ∈ ops', o.isTask = true) : refRun (ops ++ ops') = refRun ops := by
+  simp only [refRun, List.foldl_append]
+  generalize ops.foldl refStep Ref.init = r
+  induction ops' generalizing r with
+  | nil => rfl
+  | cons o rest ih =>
+    simp only [List.foldl_cons]
+    rw [refStep_task r o (h o (List.mem_cons_self ..))]
+    exact ih (fun o' ho' => h o' (List.mem_cons_of_mem _ ho')) r
 
 end ConfigSvc
